@@ -156,6 +156,15 @@ func Classify(l *Loop) *Induction {
 	}
 	inLoop := func(b *ssa.BasicBlock) bool { return l.Blocks[b] }
 	trueInLoop := inLoop(h.Succs[0])
+	// `if i >= n { break }` is `i < n` with the edges exchanged: judge the condition under which
+	// the loop continues
+	if !trueInLoop && inLoop(h.Succs[1]) {
+		neg := map[token.Token]token.Token{token.LSS: token.GEQ, token.GEQ: token.LSS, token.GTR: token.LEQ, token.LEQ: token.GTR, token.EQL: token.NEQ, token.NEQ: token.EQL}
+		if nop, ok := neg[cond.Op]; ok {
+			cond = &ssa.BinOp{Op: nop, X: cond.X, Y: cond.Y}
+			trueInLoop = true
+		}
+	}
 	// ascending, go/ssa "rangeindex" form: phi(-1, t) ; t = phi+1 ; t < len
 	// ascending, for-loop form: phi(0, phi+1) ; phi < bound
 	// descending: phi(len-1, phi-1) ; phi >= 0
